@@ -18,8 +18,8 @@ type JCall struct {
 	Ifd0    uint32 `json:"ifd0"`
 	TiffOff uint32 `json:"tiffOff"`
 	Len     uint32 `json:"len"`
-	Got     []byte `json:"got"`           // bytes the callback read
-	EOFAt   int    `json:"eofAt"`         // for "all": number of bytes after which the reader reported EOF (-1: not probed)
+	Got     []byte `json:"got"`   // bytes the callback read
+	EOFAt   int    `json:"eofAt"` // for "all": number of bytes after which the reader reported EOF (-1: not probed)
 	CbErr   string `json:"cbErr,omitempty"`
 }
 
